@@ -485,6 +485,33 @@ func execCase(c Case) (res vt.Result) {
 		if !got.Equal(want.set) {
 			return fail("result set differs from the union/intersection of the sub-results: %s", want.set.Diff(got))
 		}
+		if si == 0 && len(base) > 0 {
+			// a long select list gives every path what the path gives when it is selected alone (paths through
+			// array positions included, whatever form the answer gives them: both answers are the shard's)
+			wide := []string{"rank", "price", "label", "missing", "meta.k", "meta.name", "deep.a.x", "deep.b.w", gen.PTags + ".0", gen.PTagsCI + ".1", gen.PFlat + ".0", "deep.a.y", "nothing"}
+			wideRows, err := r.S.Search(models.SearchRequest{Query: sp.Query, Select: wide})
+			if err != nil {
+				return fail("search with a select list of %d paths failed: %v", len(wide), err)
+			}
+			byId := map[uuid.UUID]map[string]any{}
+			for _, row := range wideRows {
+				byId[row.Id] = row.Doc
+			}
+			for _, p := range wide {
+				alone, err := r.S.Search(models.SearchRequest{Query: sp.Query, Select: []string{p}})
+				if err != nil {
+					return fail("search selecting %q failed: %v", p, err)
+				}
+				for _, row := range alone {
+					a, aok := model.Lookup(row.Doc, p)
+					w, wok := model.Lookup(byId[row.Id], p)
+					if aok != wok || (aok && !model.Equal(model.Canon(a), model.Canon(w))) {
+						return fail("point %s: path %q selected alone gives %s (present %v), among %d paths it gives %s (present %v)", row.Id, p, model.Show(a), aok, len(wide), model.Show(w), wok)
+					}
+				}
+			}
+			rec.Count("wide_select_lists_compared_path_by_path", 1)
+		}
 		seenFilterOnly := false
 		merged := effectiveChildren(sp.Query) >= 2
 		var prevHybrid float32
